@@ -150,6 +150,7 @@ def run(ctx: common.Run):
         check_views(ctx, cirq, result_mod, recs, shapes, rng)
     check_sampler(ctx, cirq)
     check_sampler_shapes(ctx, cirq)
+    check_sampler_shapes_composite(ctx, cirq)
     check_simulated_records(ctx, cirq)
     check_processor_sampler(ctx, cirq)
     check_classical_store_ints(ctx, cirq)
@@ -482,6 +483,42 @@ def check_sampler_shapes(ctx, cirq):
                 if got != want or res.repetitions != reps:
                     ctx.report_witness(f'sampler:shapes:{name}', f'{name}.run(repetitions={reps}) does not report every key with shape (repetitions, instances, qubits)',
                                        {'lines': [{'circuit': repr(circuit), 'repetitions': reps}], 'impl_out': [got, res.repetitions], 'spec_out': [want, reps], 'theorem_or_correspondence': 'record shapes'})
+                    break
+
+
+def check_sampler_shapes_composite(ctx, cirq):
+    """the same for keys recorded by sub-circuits (repeated with and without repetition ids, renamed keys, several keys in one body,
+    nested) and by measurements of Pauli products (one bit per measurement): the shapes follow from the flat program"""
+    rng = ctx.substream('sampler-shapes-composite')
+    q = cirq.LineQubit.range(3)
+    samplers = {'Simulator': cirq.Simulator, 'DensityMatrixSimulator': cirq.DensityMatrixSimulator, 'ZerosSampler': cirq.ZerosSampler}
+    body1 = cirq.FrozenCircuit(cirq.X(q[0]), cirq.measure(q[0], key='m'))
+    body2 = cirq.FrozenCircuit(cirq.measure(q[0], q[1], key='m'), cirq.measure(q[2], key='n'))
+    cases = [
+        (cirq.Circuit(cirq.CircuitOperation(body1, repetitions=3, use_repetition_ids=False)), {'m': (3, 1)}),
+        (cirq.Circuit(cirq.CircuitOperation(body1, repetitions=2, use_repetition_ids=True)), {'0:m': (1, 1), '1:m': (1, 1)}),
+        (cirq.Circuit(cirq.CircuitOperation(body2, repetitions=2, use_repetition_ids=False)), {'m': (2, 2), 'n': (2, 1)}),
+        (cirq.Circuit(cirq.CircuitOperation(body2, measurement_key_map={'m': 'x'})), {'x': (1, 2), 'n': (1, 1)}),
+        (cirq.Circuit(cirq.measure(q[0], key='m'), cirq.CircuitOperation(body1, repetitions=2, use_repetition_ids=False)), {'m': (3, 1)}),
+        (cirq.Circuit(cirq.CircuitOperation(cirq.FrozenCircuit(cirq.CircuitOperation(body1, repetitions=2, use_repetition_ids=False)), repetitions=2, use_repetition_ids=False)), {'m': (4, 1)}),
+        (cirq.Circuit(cirq.measure_single_paulistring(cirq.X(q[0]) * cirq.Z(q[1]), key='p')), {'p': (1, 1)}),
+        (cirq.Circuit(cirq.measure_single_paulistring(cirq.X(q[0]) * cirq.Z(q[1]) * cirq.Y(q[2]), key='p'), cirq.measure(q[0], q[1], key='m')), {'p': (1, 1), 'm': (1, 2)}),
+        (cirq.Circuit(cirq.CircuitOperation(cirq.FrozenCircuit(cirq.measure_single_paulistring(cirq.Z(q[0]) * cirq.Z(q[1]), key='p')), repetitions=2, use_repetition_ids=False)), {'p': (2, 1)}),
+    ]
+    for circuit, shape in cases:
+        for name, mk in samplers.items():
+            for reps in (0, 2):
+                ctx.count('view', 'sampler-shapes-composite')
+                ctx.case(['sampler-shapes-composite', name, reps, repr(circuit)], True)
+                try:
+                    res = mk().run(circuit, repetitions=reps)
+                    got = {k: tuple(v.shape) for k, v in res.records.items()}
+                except (ValueError, TypeError, NotImplementedError) as e:
+                    got = f'{type(e).__name__}: {e}'[:120]
+                want = {k: (reps, inst, w) for k, (inst, w) in shape.items()}
+                if got != want:
+                    ctx.report_witness(f'sampler:shapes:composite:{name}', f'{name}.run(repetitions={reps}) of a circuit with sub-circuits / Pauli-product measurements does not report every key with shape (repetitions, instances, digits)',
+                                       {'lines': [{'circuit': repr(circuit), 'repetitions': reps}], 'impl_out': [got], 'spec_out': [want], 'theorem_or_correspondence': 'record shapes'})
                     break
 
 
